@@ -22,6 +22,7 @@ fn spaces(tier: Tier) -> Vec<Space> {
             Space { alpha: "CORE", depth: 2 },
             Space { alpha: "SHARE", depth: 2 },
             Space { alpha: "T3", depth: 2 },
+            Space { alpha: "SAME", depth: 2 },
             Space { alpha: "MICRO", depth: 3 },
         ],
         Tier::Thorough => vec![
@@ -38,6 +39,8 @@ fn spaces(tier: Tier) -> Vec<Space> {
             Space { alpha: "MICRO", depth: 3 },
             Space { alpha: "Q", depth: 2 },
             Space { alpha: "SHARE", depth: 3 },
+            Space { alpha: "SAME", depth: 2 },
+            Space { alpha: "SAME", depth: 3 },
             Space { alpha: "CORE", depth: 3 },
             Space { alpha: "A1", depth: 2 },
             Space { alpha: "MICRO", depth: 4 },
@@ -81,7 +84,7 @@ fn xalpha(name: &str) -> Vec<XOp> {
 fn rw_spaces(tier: Tier) -> Vec<(&'static str, u32)> {
     match tier {
         Tier::Quick => vec![("MICRO", 2), ("SHARE", 2), ("MICRO", 3)],
-        Tier::Thorough => vec![("MICRO", 2), ("SHARE", 2), ("CORE", 2), ("MICRO", 3), ("SHARE", 3), ("MICRO", 4)],
+        Tier::Thorough => vec![("MICRO", 2), ("SHARE", 2), ("CORE", 2), ("MICRO", 3), ("SHARE", 3), ("SAME", 2), ("SAME", 3), ("MICRO", 4)],
     }
 }
 
